@@ -1,6 +1,6 @@
 (* Codec/CursorProofs.v — cursors: byte and text round trips, decoders never panic. *)
 From AM Require Import Base.Prelude Base.Leb128 Gen.Consts Codec.Bloom Codec.BloomProofs
-  Codec.Hex Codec.HexProofs Codec.CursorCodec.
+  Codec.Hex Codec.HexProofs Codec.ExId Codec.ExIdProofs Codec.CursorCodec.
 Local Open Scope N_scope.
 
 (* closed facts about the generated tags *)
@@ -121,4 +121,28 @@ Lemma cursor_of_str_no_panic s : cursor_of_str s <> Panic.
 Proof.
   destruct s as [|c [|d t]]; cbn [cursor_of_str]; try apply cursor_op_of_str_no_panic.
   destruct (c =? 115); [discriminate|]. destruct (c =? 101); discriminate.
+Qed.
+
+(* a cursor made by one replica for its element (c, i), sent as bytes or as text, decoded and
+   resolved by a replica with another actor table that knows the actor, denotes the same op *)
+Theorem cursor_transport tp tq c i a m :
+  get_actor_safe tp i = Some a -> c <= u32_max -> wf_bytesb a = true -> lenN a < pow64 ->
+  lenN tq <= pow32 -> In a tq ->
+  exists cur o, cursor_new tp (c, i) m = Ok cur /\
+                cursor_of_bytes (cursor_to_bytes cur) = Ok cur /\
+                cursor_of_str (cursor_to_str cur) = Ok cur /\
+                cursor_to_opid tq c a = Ok o /\ denote tq o = denote tp (c, i).
+Proof.
+  intros Hga Hc Hwa Hla Lq Hin.
+  destruct (cursor_resolve_denotes tq c a Hc Lq Hin) as (o & Ro & Do).
+  assert (Hwf : wf_cursorb (COp c a m) = true).
+  { cbn [wf_cursorb]. rewrite Hwa. unfold u32_max, pow64 in *.
+    assert ((c <? 18446744073709551616) = true) as -> by lia.
+    assert ((lenN a <? 18446744073709551616) = true) as -> by lia. reflexivity. }
+  exists (COp c a m), o. split; [|split; [|split; [|split]]].
+  - unfold cursor_new. cbn [fst snd]. rewrite Hga. reflexivity.
+  - apply cursor_bytes_roundtrip, Hwf.
+  - apply cursor_str_roundtrip, Hwf.
+  - exact Ro.
+  - rewrite Do. unfold denote. cbn [fst snd]. rewrite Hga. reflexivity.
 Qed.
